@@ -212,6 +212,7 @@ def opBranches (ops : List Op) (strict : Bool) : List String :=
   (if ops.any (fun o => o == .flush) then ["ops.flush"] else []) ++
   (if after.any (fun o => match o with | .setHdr _ _ => true | .delHdr _ => true | _ => false) then ["ops.hdr_after_status"] else []) ++
   (if !validCodesB ops then ["ops.invalid_code"] else []) ++
+  (if badCode ops then ["ops.refused_effective_code"] else []) ++
   (if ops.any (fun o => match o with | .write [] => true | _ => false) then ["ops.empty_write"] else []) ++
   (if ops.any (fun o => match o with | .write bs => bs.length ≥ 4096 | _ => false) then ["ops.big_write"] else []) ++
   (if ops.any opInfo then ["ops.info_code"] else []) ++
@@ -274,7 +275,7 @@ def renderMw (j : Json) (p : MwIn) (o : Outcome) : Json :=
   let rq := p.rq
   let env := p.env
   let s := spec cfg env ops
-  let applicable := validCodesB ops
+  let applicable := true   -- `middleware_meets_spec_total` has no hypothesis: the spec is an oracle for every handler
   let excl : List String := []
   let rawOps := getArr j "ops"
   let vopts := getArr j "vopts"
@@ -317,7 +318,9 @@ def renderMw (j : Json) (p : MwIn) (o : Outcome) : Json :=
                    ("err", jstrs (s.errCalls.map errStr)),
                    ("panicked", Json.bool (s.panicked || (match s.full with | some c => aborted c | none => false))),
                    ("full", match s.full with | some c => jobj (jclient c) | none => Json.null),
-                   ("meets", Json.bool (meetsB o s))]),
+                   -- a dead writer with nothing on the wire is acceptable as well (refused status code, strict mode)
+                   ("orDead", Json.bool s.orDead),
+                   ("meets", Json.bool (meetsTB o s))]),
     ("excl", jstrs excl),
     ("branches", jstrs branches)]
 
